@@ -119,6 +119,8 @@ def run_one(case, variant):
                     out["episodes"].append(cur)
                     if variant.get("state_digest"):
                         cur["state0"] = hashlib.sha1(json.dumps(canon(simutil.norm_state(env.game.simulation.describe_state())), sort_keys=True).encode()).hexdigest()
+                    if variant.get("state_full0"):
+                        cur["state_full0"] = canon(simutil.norm_state(env.game.simulation.describe_state()))
                 else:
                     if cur is None:
                         cur = {"start": "construct", "steps": []}
